@@ -5,9 +5,10 @@ C17 — the fragment `W` on which token preservation and idempotence are PROVED
   plain words · arbitrary blanks / tabs / newlines / other Unicode white space (no CR) ·
   nested blocks written `… {⏎ … ⏎}` — an opening brace is the last word of its line (or the
   very first word of the file), a closing brace is alone on its line ·
+  simple double-quoted strings `"…"` (one line, no backslash, followed by white space) ·
   comments `# …` (on their own line or after a word; any text without backslash, no trailing blanks) — not directly after `{` / `}` on the same line, not directly before a `{`.
 
-Everything else (quotes, backquotes, heredocs, escapes, `<`, `#` inside words, braces glued to
+Everything else (multi-line / escaped quotes, backquotes, heredocs, escapes, `<`, `#` inside words, braces glued to
 words, one-line blocks, CR, BOM …) is excluded; most of it is excluded because the property is
 FALSE there (Witness.lean, known_findings.jsonl), the rest (quoted tokens, heredocs,
 placeholders, continuations) because the proof has not been extended to it.
@@ -38,8 +39,12 @@ def lastOf (d : Rune) : List Rune → Rune
   | [] => d
   | c :: cs => lastOf c cs
 
+/-- a character inside a simple double-quoted string: anything but the quote, the backslash
+    and the newline (blanks, braces, `#`, backquotes are all fine) -/
+def dqCh (c : Rune) : Bool := c != rDQ && c != rBS && c != rNL
+
 inductive Kind where
-  | plain | opn | cls | cmt
+  | plain | opn | cls | cmt | dq
 deriving DecidableEq, Repr
 
 structure Chunk where
@@ -49,7 +54,8 @@ deriving DecidableEq, Repr
 
 def Chunk.kind (c : Chunk) : Kind :=
   if c.word = [rOpen] then .opn else if c.word = [rClose] then .cls
-  else if c.word.head? = some rHash then .cmt else .plain
+  else if c.word.head? = some rHash then .cmt
+  else if c.word.head? = some rDQ then .dq else .plain
 
 /-- number of newlines in the separator -/
 def Chunk.nl (c : Chunk) : Nat := countNL c.sep
@@ -58,47 +64,60 @@ def flatten : List Chunk → List Rune
   | [] => []
   | c :: cs => c.sep ++ (c.word ++ flatten cs)
 
-/-- the word is `{`, `}`, a comment without trailing blank, or a non-empty run of plain characters -/
+/-- `t` = content of a simple string followed by its closing quote -/
+def dqTail : List Rune → Bool
+  | [] => false
+  | [c] => c == rDQ
+  | c :: t => dqCh c && dqTail t
+
+/-- the word is `{`, `}`, a comment without trailing blank, a simple double-quoted string
+    `"…"` (one line, no backslash), or a non-empty run of plain characters -/
 def Chunk.wordOK (c : Chunk) : Bool :=
   c.word == [rOpen] || c.word == [rClose] ||
   (match c.word with
    | [] => false
-   | h :: t => (h == rHash && t.all cmtCh && !isSpace (lastOf h t)) || (plainCh h && t.all plainCh))
+   | h :: t => (h == rHash && t.all cmtCh && !isSpace (lastOf h t)) || (h == rDQ && dqTail t) ||
+               (plainCh h && t.all plainCh))
 
 /-- well-formedness of the chunk list, given the kind of the previous word
     (`none` = this is the first word of the file) -/
 def goodFrom : Option Kind → List Chunk → Bool
-  | prev, [] => prev == some .plain || prev == some .cls || prev == some .cmt   -- non-empty, no dangling `{`
+  | prev, [] =>    -- non-empty, no dangling `{`
+    prev == some .plain || prev == some .cls || prev == some .cmt || prev == some .dq
   | prev, c :: cs =>
     c.sep.all wsCh && c.wordOK &&
     (match prev with
      | none => c.sep.isEmpty && c.kind != .cls
      | some .plain => !c.sep.isEmpty &&
         (match c.kind with | .opn => c.nl == 0 | .cls => decide (c.nl ≥ 1) | _ => true)
+     | some .dq => !c.sep.isEmpty &&
+        (match c.kind with | .opn => c.nl == 0 | .cls => decide (c.nl ≥ 1) | _ => true)
      | some .cmt => c.sep.head? == some rNL && c.kind != .opn
      | some _ => decide (c.nl ≥ 1) && c.kind != .opn) &&
     goodFrom (some c.kind) cs
 
-/-- cutting a string into chunks: `sep`, `word` = the chunk being built (reversed); `inCmt` = the
-    word is a comment (it runs to the end of the line; its trailing blanks go to the next separator) -/
-def cut : List Rune → (sep word : List Rune) → (inCmt : Bool) → List Chunk × List Rune
-  | [], sep, word, inCmt =>
+/-- cutting a string into chunks: `sep`, `word` = the chunk being built (reversed); `mode` 1 = the
+    word is a comment (it runs to the end of the line; its trailing blanks go to the next
+    separator), 2 = inside a double-quoted string (runs to the closing quote), 0 = otherwise -/
+def cut : List Rune → (sep word : List Rune) → (mode : Nat) → List Chunk × List Rune
+  | [], sep, word, mode =>
     if word.isEmpty then ([], sep.reverse)
-    else if inCmt then ([⟨sep.reverse, (word.dropWhile isSpace).reverse⟩], (word.takeWhile isSpace).reverse)
+    else if mode = 1 then ([⟨sep.reverse, (word.dropWhile isSpace).reverse⟩], (word.takeWhile isSpace).reverse)
     else ([⟨sep.reverse, word.reverse⟩], [])
-  | c :: rest, sep, word, inCmt =>
-    if inCmt then
+  | c :: rest, sep, word, mode =>
+    if mode = 1 then
       if c == rNL then
-        (⟨sep.reverse, (word.dropWhile isSpace).reverse⟩ :: (cut rest (c :: word.takeWhile isSpace) [] false).1,
-          (cut rest (c :: word.takeWhile isSpace) [] false).2)
-      else cut rest sep (c :: word) true
+        (⟨sep.reverse, (word.dropWhile isSpace).reverse⟩ :: (cut rest (c :: word.takeWhile isSpace) [] 0).1,
+          (cut rest (c :: word.takeWhile isSpace) [] 0).2)
+      else cut rest sep (c :: word) 1
+    else if mode = 2 then cut rest sep (c :: word) (if c == rDQ then 0 else 2)
     else if isSpace c then
-      if word.isEmpty then cut rest (c :: sep) [] false
-      else ((⟨sep.reverse, word.reverse⟩ :: (cut rest [c] [] false).1), (cut rest [c] [] false).2)
-    else cut rest sep (c :: word) (word.isEmpty && c == rHash)
+      if word.isEmpty then cut rest (c :: sep) [] 0
+      else ((⟨sep.reverse, word.reverse⟩ :: (cut rest [c] [] 0).1), (cut rest [c] [] 0).2)
+    else cut rest sep (c :: word) (if word.isEmpty && c == rHash then 1 else if word.isEmpty && c == rDQ then 2 else 0)
 
 /-- chunks and trailing white space of a string -/
-def chunksOf (x : List Rune) : List Chunk × List Rune := cut x [] [] false
+def chunksOf (x : List Rune) : List Chunk × List Rune := cut x [] [] 0
 
 /-- drop the leading white space of the first chunk (what `TrimSpace` does) -/
 def dropLead : List Chunk → List Chunk
